@@ -59,6 +59,19 @@ def run(tier):
                        diff_arr(gate.eval(mixed=True), x), angle=f, extra=(g,),
                        functions=['quantum.gates.Rotation.grad', 'quantum.cqmap.Functor._ar', 'quantum.circuit.Sum.eval'],
                        what='parameter shift: CQ-eval(%s(f(x)).grad(x)) = d/dx CQ-eval(%s(f(x)))' % (name, name))
+    for name, cls in rot2.items():
+        # controlled rotations: the default (parameter-shift) gradient is either refused or the derivative of the CQ map
+        gate = cls(f)
+        fq2 = ['quantum.gates.%s.grad' % name]
+        try:
+            gr = gate.grad(x)
+        except NotImplementedError:
+            suite.fact('%s.grad.mixed.refused' % name, True, functions=fq2,
+                       what='the default gradient of %s is refused with NotImplementedError (no value returned)' % name)
+            continue
+        suite.identity('%s.grad.mixed' % name, arr(total(gr, mixed=True)), diff_arr(gate.eval(mixed=True), x), angle=f,
+                       extra=(g,), functions=fq2 + ['quantum.cqmap.Functor._ar'],
+                       what='CQ-eval(%s(f(x)).grad(x)) = d/dx CQ-eval(%s(f(x))) whenever a gradient is returned' % (name, name))
     # scalars
     s_ = scalar(x ** 2 * y + I * x)
     suite.identity('Scalar.grad.pure', arr(total(s_.grad(x, mixed=False))), diff_arr(s_.eval(), x), extra=(x, y),
